@@ -107,6 +107,45 @@ def h_signaling(ctx, kind, variant=0):
     ctx.observe("ok", True)
 
 
+def h_fmtp_spacing(ctx, n, variant=0):
+    """a=fmtp parameter lists are written both as 'a=1;b=2' and, in RFC 6184's own examples and by
+    several stacks, as 'a=1; b=2': both spellings must yield the same parameters."""
+    from aiortc.sdp import parameters_from_sdp
+
+    VARIANT[0] = variant
+    items = []
+    for i in range(n):
+        k = pick(ctx, "k%d" % i, ["packetization-mode", "profile-level-id", "level-asymmetry-allowed", "apt"]) if i else "profile-level-id"
+        v = ctx.int("v%d" % i, 0, 255) if k in ("apt", "packetization-mode", "level-asymmetry-allowed") else _tok(ctx, "v%d" % i)
+        items.append((k, v))
+    keys = [k for k, _ in items]
+    if len(set(keys)) != len(keys):
+        raise sx.PathAbort()
+    tight = ";".join("%s=%s" % (k, _str(v)) for k, v in items) if not sx.active() else sx_join_items(items, ";")
+    loose = "; ".join("%s=%s" % (k, _str(v)) for k, v in items) if not sx.active() else sx_join_items(items, "; ")
+    a = parameters_from_sdp(tight)
+    b = parameters_from_sdp(loose)
+    ctx.reach("fmtp-parsed")
+    ctx.check(sorted(a.keys()) == keys_sorted(keys), "tight-spelling-recovers-the-parameter-names")
+    ctx.check(sorted(b.keys()) == keys_sorted(keys), "spelling-with-a-space-after-the-semicolon-recovers-the-same-names", repr(sorted(b.keys())))
+    for k in keys:
+        if k in b and k in a:
+            ctx.check(sx.deep_eq(a[k], b[k]), "both-spellings-give-the-same-values")
+    ctx.observe("n", len(a))
+
+
+def keys_sorted(keys):
+    return sorted(keys)
+
+
+def sx_join_items(items, sep):
+    out = None
+    for k, v in items:
+        piece = k + "=" + _str(v)
+        out = piece if out is None else out + sep + piece
+    return out
+
+
 def _media(ctx, i, kind, ncodecs, extras):
     tag = "m%d_" % i
     if kind == "application":
@@ -274,6 +313,7 @@ def _desc_jobs(tier):
 
 
 HARNESSES = {
+    "fmtp-spacing": Harness("fmtp-spacing", h_fmtp_spacing, lambda tier: [{"n": n, "variant": v} for n in (2, 3) for v in range(2)], style="DIFF (two spellings)", bounds="fmtp lists of 2..3 parameters (names from the H.264 / RTX set, integer values symbolic 0..255, token values 2 symbolic letters) written with ';' and with '; '", encoded=["aiortc.sdp:parameters_from_sdp"], stubs=STUBS, outside=OUT, twin="fmtp-parsed"),
     "signaling": Harness("signaling", h_signaling, lambda tier: [{"kind": k, "variant": v} for k in ("plain", "all") for v in range(3 if tier == "quick" else 6)], style="RT", bounds="candidates as in the candidate harness (IPv4 and IPv6 addresses) through contrib.signaling object_to_string/object_from_string", encoded=["aiortc.contrib.signaling:object_to_string", "aiortc.contrib.signaling:object_from_string"] + ENC, stubs=STUBS + ["json.dumps/loads -> lossless stand-in (the JSON text is not modelled)"], outside=OUT, twin="signalled"),
     "candidate": Harness("candidate", h_candidate, lambda tier: [{"kind": k, "variant": v} for k in ("plain", "raddr", "tcptype", "all") for v in range(6)], style="RT", bounds="all integer fields symbolic over their full range (lazy decimal atoms), foundation 2 symbolic letters, ip/protocol/type/tcptype from small sets, with and without raddr/rport/tcptype", encoded=ENC, stubs=STUBS, outside=OUT, twin="candidate-parsed"),
     "description": Harness("description", h_description, _desc_jobs, style="RT", bounds="<=2 media sections (audio/video/application, both SCTP syntaxes), <=2 codecs with symbolic payload type / clock rate / channels / fmtp int, str and flag-like parameters / <=2 feedback entries, header extension, 2 SSRCs + cname + FID group, ICE ufrag/pwd/options, one candidate, end-of-candidates, fingerprint, setup role, sctp-port, max-message-size, BUNDLE and WMS groups, session and media c= lines", encoded=ENC, stubs=STUBS, outside=OUT, twin="parsed", opts={"samples": 1}),
